@@ -33,7 +33,7 @@ def _pick(salt, chrom, sample, pos, rate):
 def gen_tags_case(rng, tier):
     kinds = rng.choice([["snv"], ["snv"], ["snv"], ["snv", "snv", "snv", "ins", "del"], ["snv", "snv", "mnp"]])
     w = W.gen_core(rng, n_chroms=rng.choice([1, 1, 2]), n_samples=rng.choice([1, 1, 2]), kinds=kinds,
-                   homopolymers=rng.choice([0, 0, 0, 2]), het_rate=rng.choice([0.7, 0.9]), first_base_variant=0.1)
+                   homopolymers=rng.choice([0, 0, 0, 2]), het_rate=rng.choice([0.7, 0.9]), first_base_variant=0.1, pos_coincidence=0.5)
     depth = rng.choice([3, 4, 6, 10, 14, 20, 30])
     W.gen_library(rng, w, "L0", truth="main", depth=depth,
                   read_len=rng.choice([(100, 300), (150, 600), (300, 1200)]), cuts=rng.choice([0, 0, 1, 2]))
